@@ -63,7 +63,7 @@ def bounds(tier, seed):
         "beta": [str(b) for b in BETAS],
         "eta": ETAS,
         "x_grid": "k/256, k=0..256, plus eta, eta+-ulp, 1e-30, smallest subnormal, seed value; for beta=0 also {-1,-1e-3,1+1e-3,2}",
-        "fields": "2x2 and 3x3: constants, ramps through eta (3 directions x slopes {1e-30,1e-6,0.1,1} x 3 offsets), all binary 2x2 (16) and 3x3 (512), all 2x2 over {0,1/4,1/2,3/4,1} (625), seed pattern"
+        "fields": "2x2 and 3x3: constants, ramps through eta (4 directions x slopes {1e-30,1e-6,0.1,1} x 3 offsets), nearly flat ramps from 0 (slopes 1e-100..1e-12), all binary 2x2 (16) and 3x3 (512), all 2x2 over {0,1/4,1/2,3/4,1} (625), seed pattern"
         + ("; 4x4 ramps and all 4x4 binary arrays" if tier == "thorough" else ""),
         "voxel_sizes": VOXELS if tier == "thorough" else VOXELS[:2],
         "singleton_axis_positions": [0, 1, 2],
@@ -94,6 +94,10 @@ def _fields(n, eta, seed, big):
         for off in (0.0, 0.5, 1.0):
             for coord in (ii, jj, ii + jj, ii - jj):
                 out.append(np.clip(eta + slope * (coord - off), 0.0, 1.0))
+    # nearly flat fields far from the threshold: tiny but non-zero gradient => huge interface distance (overflow guards)
+    for slope in (1e-100, 1e-62, 1e-30, 1e-20, 1e-12):
+        for coord in (ii, jj, ii + jj):
+            out.append(slope * coord)
     if n <= 3 or big:
         m = n * n
         bits = ((np.arange(1 << m)[:, None] >> np.arange(m)[None, :]) & 1).astype(np.float64)
